@@ -270,6 +270,9 @@ func (c *Cluster) DoNoDrain(s Step) (out Outcome) {
 	return out
 }
 
+// Main runs f as the scheduler (Raft applies made inside go straight to the log).
+func (c *Cluster) Main(f func()) { c.main(f) }
+
 func (c *Cluster) main(f func()) {
 	c.mu.Lock()
 	c.inMain = true
